@@ -151,7 +151,87 @@ harness_e!(snapshot_last_prev_write_drop_prev, 20, |t| { snapshot::<5>(t, [1, 4,
 harness_e!(snapshot_seek_write_next_drop_next, 20, |t| { snapshot::<5>(t, [2, 5, 3, 6, 3]) });
 harness_e!(snapshot_drop_first_next, 20, |t| { snapshot::<3>(t, [6, 0, 3]) });
 
+/// Minimal shapes (the larger scripts above run out of memory): one entry, the raw memtable
+/// cursor, and the release of the memtable between two cursor calls.
+harness_e!(min_cursor_after_release, 4, |t| {
+    let mut t = Tape::new(t);
+    skipfree::verif_harness::script_heights(&[1, 1, 1, 1, 1, 1, 1, 1]);
+    let mt = Arc::new(MemTable::default());
+    let (k, v) = (t.u8(), t.u8());
+    {
+        let mut wb = WriteBatch::default();
+        wb._put(&[k], 1, &[v]);
+        assert!(mt.write(&mut wb).is_ok(), "memtable write returns Ok");
+    }
+    let mut cur = Box::new(mt.cursor());
+    cur.seek(&[0]).unwrap(); // the raw skiplist cursor: positioned on the first entry >= key
+    vassume!(obs_of(&*cur).is_some());
+    drop(mt); // the store releases the memtable (flush finished)
+    assert!(obs_of(&*cur) == Some((k, 1, Some(v))), "the cursor still shows the entry after the memtable is released");
+    cur.next().unwrap();
+    assert!(obs_of(&*cur).is_none(), "and then ends");
+    cur.prev().unwrap();
+    assert!(obs_of(&*cur) == Some((k, 1, Some(v))), "and steps back onto the entry");
+    skipfree::verif_harness::unscript_heights();
+    drop(cur);
+});
+/// The smallest memtable-level shape: write, cursor, release, read key and value.
+harness_e!(min_key_after_release, 4, |t| {
+    let mut t = Tape::new(t);
+    skipfree::verif_harness::script_heights(&[1, 1, 1, 1, 1, 1, 1, 1]);
+    let mt = Arc::new(MemTable::default());
+    let (k, v) = (t.u8(), t.u8());
+    {
+        let mut wb = WriteBatch::default();
+        wb._put(&[k], 1, &[v]);
+        assert!(mt.write(&mut wb).is_ok(), "memtable write returns Ok");
+    }
+    let mut cur = mt.cursor();
+    cur.seek_to_first().unwrap(); // the raw skiplist cursor: on the first entry
+    drop(mt); // the store releases the memtable (flush finished)
+    match cur.key() {
+        Some(kr) => assert!(kr.key.len() == 1 && kr.key[0] == k && kr.timestamp == 1, "the cursor still shows the key after the memtable is released"),
+        None => assert!(false, "the cursor lost its position when the memtable was released"),
+    }
+    assert!(cur.value().map(|x| x.len() == 1 && x[0] == v) == Some(true), "and the value");
+    skipfree::verif_harness::unscript_heights();
+    drop(cur);
+});
+
+/// One entry, a range scan at the entry's timestamp, then a later write to the same or another
+/// key: the scan never shows the later write.
+harness_e!(min_scan_later_write, 6, |t| {
+    let mut t = Tape::new(t);
+    skipfree::verif_harness::script_heights(&[1, 1, 1, 1, 1, 1, 1, 1]);
+    let mt = Arc::new(MemTable::default());
+    let (k, v, k2) = (t.u8() & 1, t.u8(), t.u8() & 1);
+    {
+        let mut wb = WriteBatch::default();
+        wb._put(&[k], 1, &[v]);
+        assert!(mt.write(&mut wb).is_ok(), "memtable write returns Ok");
+    }
+    let cur = mt.range_scan(&Bound::<Vec<u8>>::Unbounded, &Bound::Unbounded, 1);
+    assert!(cur.is_ok(), "range_scan returns Ok");
+    let mut cur = Box::new(cur.unwrap());
+    {
+        let mut wb = WriteBatch::default();
+        wb._put(&[k2], 2, &[0xee]);
+        assert!(mt.write(&mut wb).is_ok(), "later write Ok");
+    }
+    cur.seek_to_first().unwrap();
+    cur.next().unwrap();
+    assert!(obs_of(&*cur) == Some((k, 1, Some(v))), "the scan shows the contents at open time, not the later write");
+    cur.next().unwrap();
+    assert!(obs_of(&*cur).is_none(), "and nothing else");
+    vcover!(k2 == k, "later write to the same key");
+    vcover!(k2 < k, "later write to a smaller key");
+    skipfree::verif_harness::unscript_heights();
+    drop(cur);
+    drop(mt);
+});
+
 harness_list!(
+    min_key_after_release, min_cursor_after_release, min_scan_later_write,
     snapshot_first_next_write_next_next, snapshot_first_next_drop_next_prev, snapshot_write_drop_seek_next,
     snapshot_last_prev_write_drop_prev, snapshot_seek_write_next_drop_next, snapshot_drop_first_next,
 );
